@@ -1,6 +1,6 @@
 #!/bin/sh
 # tools/runall.sh [tier]: runs every check claimed in MANIFEST.json (quick by default), one line per property
-cd /verif
+cd "$(dirname "$0")/.."
 tier=${1:-quick}
 for p in $(python3 -c "import json; print(' '.join(c['property_id'] for c in json.load(open('MANIFEST.json'))['checks']))"); do
   ./check $p --tier $tier > /tmp/runall_$p.log 2>&1; rc=$?
